@@ -23,9 +23,15 @@ type Execution struct {
 }
 
 func NewExecution(query promql.Query, pool *model.VectorPool, opts *query.Options) *Execution {
+	// The remote engine evaluated the query on the same step grid and has
+	// applied the lookback delta already. Its result is read back step by step
+	// without any lookback: otherwise a series that ended or went stale remotely
+	// would be carried forward for another lookback delta.
+	exactOpts := *opts
+	exactOpts.LookbackDelta = 0
 	return &Execution{
 		query:          query,
-		vectorSelector: scan.NewVectorSelector(pool, newStorageFromQuery(query), opts, 0, 0, 1),
+		vectorSelector: scan.NewVectorSelector(pool, newStorageFromQuery(query), &exactOpts, 0, 0, 1),
 	}
 }
 
